@@ -87,7 +87,7 @@ def display(t):
 
 def expected(case):
     op = case[0]
-    if op == "eq":
+    if op in ("eq", "eqm"):
         a, b = py(case[1]), py(case[2])
         e = "true" if a == b else "false"
         return ("prefix", "%s sym=%s refl=true" % (e, e), a == b)
@@ -196,6 +196,9 @@ def run(tier, seed, replay=None):
             pairs.append((b, rnd.choice(vs)))
     for a, b in pairs:
         cases.append(("eq", a, b))
+    # the same relation after the first term was walked (not changed) through head_mut / tail_mut / iter_mut on a shared handle
+    for a, b in (pairs if len(pairs) < 4000 else rnd.sample(pairs, 4000)) + [(a, a) for a in sample]:
+        cases.append(("eqm", a, b))
     for _ in range(600 if tier == "quick" else 5000):
         l = [rnd.choice(sample[:60] + atoms) for _ in range(rnd.randint(0, 4))]
         cases.append((rnd.choice(["from_vec", "from_array", "collect", "improper", "improper_array"]), l))
@@ -207,7 +210,7 @@ def run(tier, seed, replay=None):
     for k, (c, m, i) in enumerate(zip(cases, model, impl)):
         ops[c[0]] = ops.get(c[0], 0) + 1
         mi = "panic" if i.startswith("panic") else i
-        if c[0] == "eq" and i.startswith("false"):
+        if c[0] in ("eq", "eqm") and i.startswith("false"):
             # unequal terms may or may not collide: the hash of unequal terms is not part of the correspondence
             import re as _re
             mi = _re.sub(r"hash_equal=\w+", "", mi)
@@ -239,7 +242,7 @@ def run(tier, seed, replay=None):
     if not pr["ok"]:
         res.violation({"broken_obligation": pr["problems"], "theorems": pr["theorems"]}, no_input=not fails)
     if disagree and not fails:
-        k = next(k for k in range(len(cases)) if cases[k][0] not in ("display", "eq") and model[k] != ("panic" if impl[k].startswith("panic") else impl[k]))
+        k = next(k for k in range(len(cases)) if cases[k][0] not in ("display", "eq", "eqm") and model[k] != ("panic" if impl[k].startswith("panic") else impl[k]))
         res.violation({"theorem_or_correspondence": "correspondence Model/LTermOps.v vs src/lterm.rs", "case_line": lines[k],
                        "implementation": impl[k], "model": model[k], "n_disagreements": disagree}, no_input=True)
     res.coverage.update({
